@@ -179,6 +179,13 @@ func (s *Store) Get(key []byte, ts uint64, o ReadOpts) ([]byte, uint64, *Err) {
 	return nil, 0, nil
 }
 
+// observe raises max_ts: every read, whatever it finds, forbids later async commits at or below its ts.
+func (s *Store) observe(ts uint64) {
+	if ts != math.MaxUint64 && ts > s.MaxTS {
+		s.MaxTS = ts
+	}
+}
+
 // Pair is a scan / batch-get result entry.
 type Pair struct {
 	Key   []byte
@@ -188,6 +195,7 @@ type Pair struct {
 
 // BatchGet reads several keys (absent keys are skipped, blocked keys are reported).
 func (s *Store) BatchGet(keys [][]byte, ts uint64, o ReadOpts) []Pair {
+	s.observe(ts)
 	var out []Pair
 	for _, k := range keys {
 		v, _, err := s.Get(k, ts, o)
@@ -201,6 +209,7 @@ func (s *Store) BatchGet(keys [][]byte, ts uint64, o ReadOpts) []Pair {
 
 // Scan reads [start,end) in ascending order up to limit entries.
 func (s *Store) Scan(start, end []byte, limit int, ts uint64, o ReadOpts) []Pair {
+	s.observe(ts)
 	var out []Pair
 	for _, k := range s.sortedKeys(start, end) {
 		if len(out) >= limit {
@@ -218,6 +227,7 @@ func (s *Store) Scan(start, end []byte, limit int, ts uint64, o ReadOpts) []Pair
 
 // ReverseScan reads [start,end) in descending order up to limit entries.
 func (s *Store) ReverseScan(start, end []byte, limit int, ts uint64, o ReadOpts) []Pair {
+	s.observe(ts)
 	ks := s.sortedKeys(start, end)
 	var out []Pair
 	for i := len(ks) - 1; i >= 0 && len(out) < limit; i-- {
